@@ -455,6 +455,7 @@ def source_facts(repo_src: pathlib.Path):
     # 8. class-level / module-level mutable containers that are written at run time (process-wide state)
     facts["shared_containers"] = shared_containers(repo_src)
     facts["no_unlisted_shared_containers"] = all(x["id"] in SHARED_CONTAINER_WHITELIST for x in facts["shared_containers"])
+    facts["process_state_candidates"] = list(CANDIDATES)
 
     # 6. templates are compiled lazily: no generator constructor asks the environment for a template
     lazy = True
@@ -586,7 +587,8 @@ def _copy_header(
         self._handle_overwrite(target, allow_overwrite)
         target.parent.mkdir(parents=True, exist_ok=True)
         if len(line_pps) == 0:
-            shutil.copy(str(resource), str(target))
+            shutil.copyfile(str(resource), str(target))
+            shutil.copymode(str(resource), str(target))
         else:
             self._copy_header_using_line_pps(resource, target, line_pps)
         for file_pp in file_pps:
@@ -933,7 +935,12 @@ def memoised_functions(repo_src):
 
 # process-wide containers that are known and modelled / harmless (id = module:Class.attr or module:NAME)
 SHARED_CONTAINER_WHITELIST = {
+    # the process-wide unique-name generator: modelled as an explicit state machine (Model/ProcState.lean), reset per file
+    "nunavut.lang._common:UniqueNameGenerator._singleton",
 }
+
+
+CANDIDATES = []      # module-level / class-level names bound to a value that could hold state (filled by shared_containers)
 
 
 def shared_containers(repo_src):
@@ -957,6 +964,7 @@ def shared_containers(repo_src):
         return False
 
     out = []
+    del CANDIDATES[:]
     for f in sorted((repo_src / "nunavut").rglob("*.py")):
         rel = f.relative_to(repo_src)
         if "jinja2" in rel.parts or "markupsafe" in rel.parts:
@@ -977,6 +985,13 @@ def shared_containers(repo_src):
                         if isinstance(t, ast.Name):
                             class_attrs.setdefault(cl.name, set()).add(t.id)
         all_class_attr = {a for v in class_attrs.values() for a in v}
+        class_names = {n.name for n in ast.walk(tree) if isinstance(n, ast.ClassDef)}
+        owner_class = {}
+        for cl in [n for n in ast.walk(tree) if isinstance(n, ast.ClassDef)]:
+            for sub in ast.walk(cl):
+                if isinstance(sub, (ast.FunctionDef, ast.AsyncFunctionDef)):
+                    owner_class.setdefault(id(sub), cl.name)
+        CANDIDATES.extend(sorted([f"{mod}:{n}" for n in mod_names] + [f"{mod}:{c}.{a}" for c, v in class_attrs.items() for a in v]))
 
         def owner(expr):
             """id of the shared container an expression denotes, or None."""
@@ -1017,6 +1032,12 @@ def shared_containers(repo_src):
                     out.append({"id": own(n.args[0]), "where": f"{mod}.{cl_or_fn.name}:{n.lineno}", "how": "next()"})
                 if isinstance(n, ast.AugAssign) and own(n.target):
                     out.append({"id": own(n.target), "where": f"{mod}.{cl_or_fn.name}:{n.lineno}", "how": "augmented assignment"})
+                # a class attribute rebound at run time (`cls.x = …`, `ClassName.x = …`) is process-wide state as well
+                for t in tg:
+                    if isinstance(t, ast.Attribute) and isinstance(t.value, ast.Name) and \
+                            (t.value.id == "cls" or t.value.id in class_names):
+                        cn = t.value.id if t.value.id in class_names else owner_class.get(id(cl_or_fn), "?")
+                        out.append({"id": f"{mod}:{cn}.{t.attr}", "where": f"{mod}.{cl_or_fn.name}:{n.lineno}", "how": "class attribute rebound"})
                 if isinstance(n, ast.Global):
                     for nm in n.names:
                         out.append({"id": f"{mod}:{nm}", "where": f"{mod}.{cl_or_fn.name}:{n.lineno}", "how": "global statement"})
@@ -2031,6 +2052,10 @@ def emit_top(facts) -> str:
             "/-- No function behind `functools.lru_cache` takes a PyDSDL model object (equal by name, version and bit length set only) or a",
             "container as part of its key. -/",
             f"def memoKeysDetermineResult : Bool := {b(facts['memo_keys_determine_result'])}",
+            "/-- Module-level / class-level names of the package bound to a value that could hold state (a container literal or the result",
+            "of a call that is not a known immutable constructor); `noUnlistedSharedContainers` says that none of them is written at run",
+            "time (item / attribute / augmented assignment, mutating or position-moving method, `next()`, `global` — also through a local alias). -/",
+            "def processStateCandidates : List String := [" + ", ".join(lean_str(x) for x in facts["process_state_candidates"]) + "]",
             "/-- The functions behind `functools.lru_cache` / `functools.cache`, with their parameters. -/",
             "def memoisedFunctions : List (String × List String) := [" + ", ".join(
                 "(" + lean_str(m["function"]) + ", [" + ", ".join(lean_str(x) for x in m["params"]) + "])" for m in facts["memoised_functions"]) + "]",
